@@ -41,14 +41,38 @@ const (
 
 var outNames = [...]string{"ok", "error", "error+results", "panic", "short", "long", "slow", "slow-until-cancel"}
 
+// Shard values of several dynamic types whose %v renderings collide although
+// the values differ under Go equality (the identity Func.Shard promises).
+type orgID int64
+type deviceID int64
+type shardPoint struct{ X int }
+
+// shardPalette returns k pairwise different (under ==) shard values. In
+// colliding mode they all print as the same number.
+func shardPalette(r *rand.Rand, k int, colliding bool) []interface{} {
+	if !colliding {
+		out := make([]interface{}, k)
+		for i := range out {
+			out[i] = i
+		}
+		return out
+	}
+	b := r.Intn(200)
+	all := []interface{}{orgID(b), deviceID(b), b, fmt.Sprint(b), int64(b), &shardPoint{b}, &shardPoint{b}, uint8(b)}
+	r.Shuffle(len(all), func(i, j int) { all[i], all[j] = all[j], all[i] })
+	return all[:k]
+}
+
 type fnCfg struct {
-	MaxSize  int
-	Wait     time.Duration
-	MaxDur   time.Duration
-	Shards   int
-	ShardFn  bool  // false: Func.Shard is nil (only when Shards == 1)
-	Outcomes []int // outcome of the k-th Many call of this Func (cycled)
-	SlowFor  time.Duration
+	ShardVals []interface{} // the value Func.Shard returns for arg.Shard == index
+	Colliding bool
+	MaxSize   int
+	Wait      time.Duration
+	MaxDur    time.Duration
+	Shards    int
+	ShardFn   bool  // false: Func.Shard is nil (only when Shards == 1)
+	Outcomes  []int // outcome of the k-th Many call of this Func (cycled)
+	SlowFor   time.Duration
 }
 
 type callerCfg struct {
@@ -103,6 +127,8 @@ func genScenario(r *rand.Rand) scenario {
 			SlowFor: dur(r, 300*time.Microsecond, 3*time.Millisecond),
 		}
 		f.ShardFn = f.Shards > 1 || r.Intn(2) == 0
+		f.Colliding = f.Shards > 1 && r.Intn(2) == 0
+		f.ShardVals = shardPalette(r, f.Shards, f.Colliding)
 		no := 1 + r.Intn(6)
 		for k := 0; k < no; k++ {
 			o := outOK
@@ -184,8 +210,12 @@ func (sc scenario) describe() map[string]interface{} {
 		for _, o := range f.Outcomes {
 			os = append(os, outNames[o])
 		}
-		fns = append(fns, fmt.Sprintf("fn%d{MaxSize:%d WaitInterval:%v MaxDuration:%v shards:%d shardFn:%v manyOutcomes:[%s] slow:%v}",
-			i, f.MaxSize, f.Wait, f.MaxDur, f.Shards, f.ShardFn, strings.Join(os, ","), f.SlowFor))
+		var sv []string
+		for _, v := range f.ShardVals {
+			sv = append(sv, fmt.Sprintf("%T(%v)", v, v))
+		}
+		fns = append(fns, fmt.Sprintf("fn%d{MaxSize:%d WaitInterval:%v MaxDuration:%v shards:%d shardFn:%v shardValues:[%s] manyOutcomes:[%s] slow:%v}",
+			i, f.MaxSize, f.Wait, f.MaxDur, f.Shards, f.ShardFn, strings.Join(sv, " "), strings.Join(os, ","), f.SlowFor))
 	}
 	var rs []string
 	for i, rc := range sc.Rounds {
@@ -253,7 +283,7 @@ func (m *mon) makeFunc(idx int, cfg fnCfg) *fnState {
 	fs := &fnState{cfg: cfg, idx: idx}
 	f := &batch.Func{MaxSize: cfg.MaxSize, WaitInterval: cfg.Wait, MaxDuration: cfg.MaxDur}
 	if cfg.ShardFn {
-		f.Shard = func(a interface{}) interface{} { return a.(arg).Shard }
+		f.Shard = func(a interface{}) interface{} { return cfg.ShardVals[a.(arg).Shard] }
 	}
 	f.Many = func(ctx context.Context, args []interface{}) (res []interface{}, err error) {
 		k := atomic.AddInt64(&fs.calls, 1) - 1
@@ -545,7 +575,8 @@ func oracle(sc scenario, rounds []*roundLog, manys []*manyRec) (string, bool, ma
 		if mr.mutated {
 			bad("the argument slice handed to Func.Many changed while Many was running", "call", mr.ID)
 		}
-		shard := -1
+		var shard interface{} // the value the harness's Shard func returned for the first argument
+		haveShard := false
 		inCall := map[arg]bool{}
 		for _, a := range mr.Args {
 			x, ok := a.(arg)
@@ -561,10 +592,15 @@ func oracle(sc scenario, rounds []*roundLog, manys []*manyRec) (string, bool, ma
 			if x.Fn != mr.Fn {
 				bad("argument handed to the Many of a different Func", "call", mr.ID, "arg", fmt.Sprintf("%+v", x), "many_of_fn", mr.Fn)
 			}
-			if shard == -1 {
-				shard = x.Shard
-			} else if cfg.ShardFn && x.Shard != shard {
-				bad("one Many call mixes shards", "call", mr.ID, "shards", fmt.Sprintf("%d and %d", shard, x.Shard))
+			if x.Shard < 0 || x.Shard >= len(cfg.ShardVals) {
+				bad("argument with an unknown shard", "call", mr.ID, "arg", fmt.Sprintf("%+v", x))
+				continue
+			}
+			// shards are compared by Go equality of the values Func.Shard returned
+			if sv := cfg.ShardVals[x.Shard]; !haveShard {
+				shard, haveShard = sv, true
+			} else if cfg.ShardFn && sv != shard {
+				bad("one Many call mixes shards", "call", mr.ID, "shards", fmt.Sprintf("%T(%v) and %T(%v)", shard, shard, sv, sv))
 			}
 			if inCall[x] {
 				bad("argument appears twice in one Many call", "call", mr.ID, "arg", fmt.Sprintf("%+v", x))
@@ -714,7 +750,12 @@ func oracle(sc scenario, rounds []*roundLog, manys []*manyRec) (string, bool, ma
 	sort.Strings(shapeParts)
 	var cfgs []string
 	for _, f := range sc.Fns {
-		cfgs = append(cfgs, fmt.Sprintf("m%d/s%d", f.MaxSize, f.Shards))
+		c := ""
+		if f.Colliding {
+			c = "c"
+			feats["func:shard_values_of_mixed_types_same_rendering"]++
+		}
+		cfgs = append(cfgs, fmt.Sprintf("m%d/s%d%s", f.MaxSize, f.Shards, c))
 	}
 	var rs []string
 	for _, rc := range sc.Rounds {
@@ -738,11 +779,12 @@ func oracle(sc scenario, rounds []*roundLog, manys []*manyRec) (string, bool, ma
 func TestCheck(t *testing.T) {
 	run := vlib.Start(t, "C05", "exploration")
 	defer run.Finish()
-	run.Rule("seeded scenarios on the real batch.Func: 1..3 Funcs on one batching context (MaxSize in {0,1,2,3,7}, WaitInterval 0.2-2 ms, MaxDuration 1-5 ms, 1..4 shards, Shard func nil or set, per-call Many outcome from {ok, error, error+results, panic, short, long, slow, slow-until-cancel}), " +
+	run.Rule("seeded scenarios on the real batch.Func: 1..3 Funcs on one batching context (MaxSize in {0,1,2,3,7}, WaitInterval 0.2-2 ms, MaxDuration 1-5 ms, 1..4 shards, Shard func nil or set, shard values either ints or values of different dynamic types / distinct pointers with the same %v rendering (orgID(b), deviceID(b), int b, string b, int64(b), two &shardPoint{b}, uint8(b)), per-call Many outcome from {ok, error, error+results, panic, short, long, slow, slow-until-cancel}), " +
 		"1..3 back-to-back rounds of 1..64 callers (1..3 sequential Invokes each) started in bursts placed at 0, 0.5/0.9/1/1.1/2 x WaitInterval and 0.9/1/1.1 x MaxDuration, round context cancelled never / before / during / after, " +
 		"with or without concurrencylimiter.With(ctx,1..3) and an Acquire around every Invoke, random yields at the batch.* and limiter.* hooks. All callers of a round share one cancellable context (the property speaks of 'the context'). " +
 		"Non-trivial = the log shows a MaxSize roll-over (a full batch followed by another batch of the same Func/shard in the round), a late joiner (Invoke called after a Many call of its Func/shard had started, and dispatched in a later call) or a cancellation while Invokes were outstanding; " +
 		"distinct = limiter size, per-Func (MaxSize, shards), per-round (callers, cancel mode), number of undispatched arguments and the multiset of Many calls (Func, batch size, outcome).")
+	run.Assume("shards are compared by Go equality (==) of the values the harness's Shard function returned for the arguments, never by a printed form")
 	run.Assume("arguments are unique (round, caller, seq) values; Many computes want(arg) per position, so any mis-pairing of argument and result is visible")
 	run.Assume("an Invoke may return the context's error instead of the batch outcome once cancel() of its context has been begun before it returned (lenient reading of 'or the batch's error')")
 	run.Assume("all log sequence numbers come from one atomic counter: Invoke call is logged before the call, Invoke return after it, Many entry/exit inside Many")
